@@ -95,6 +95,8 @@ structure State where
   cTime : Int
   index : List String                -- Tendermint's tx index: the transactions of committed blocks
   blockTxs : List String             -- transactions delivered in the current block
+  bal2 : List (Addr × Int)           -- balances in a second denomination (non-zero only); it moves only as part of a fee
+  supply2 : Int
   deriving Repr
 
 def forever : Int := -1
@@ -120,6 +122,19 @@ def mint (s : State) (acc : Addr) (amt : Int) : State :=
 def burnFrom (s : State) (acc : Addr) (amt : Int) : Option State :=
   if balOf s acc < amt then none
   else some { setBal s acc (balOf s acc - amt) with supply := s.supply - amt }
+
+/-! ### the second denomination: it can only be paid as (part of) a fee -/
+
+def balOf2 (s : State) (a : Addr) : Int := (aget s.bal2 a).getD 0
+
+def setBal2 (s : State) (a : Addr) (x : Int) : State :=
+  { s with bal2 := if x == 0 then adel s.bal2 a else aset s.bal2 a x }
+
+def send2 (s : State) (src dst : Addr) (amt : Int) : Option State :=
+  if balOf2 s src < amt then none
+  else
+    let s1 := setBal2 s src (balOf2 s src - amt)
+    some (setBal2 s1 dst (balOf2 s1 dst + amt))
 
 /-! ### power index, queue, bits -/
 
@@ -306,6 +321,15 @@ def rewardFromFees (s : State) : State :=
   | some s1 =>
     if (aget s1.vals s.proposer).isSome then (send s1 s1.posAcc s.proposer fees).getD s1 else s1
 
+/-- the same transfer for what the fee collector holds in the second denomination: to the pos module account,
+and on to the proposer if it is a known validator (`rewardFromFees` moves the collected coins of every denomination) -/
+def rewardFromFees2 (s : State) : State :=
+  let fees := balOf2 s s.feeAcc
+  match send2 s s.feeAcc s.posAcc fees with
+  | none => s
+  | some s1 =>
+    if (aget s1.vals s.proposer).isSome then (send2 s1 s1.posAcc s.proposer fees).getD s1 else s1
+
 /-- `mintValidatorAwards`; `none` = panic (`NewCoin` refuses a negative amount) -/
 def mintAwards (s : State) : Option State :=
   if s.awards.any (fun e => e.2 < 0) then none
@@ -331,7 +355,7 @@ def burnValidators (s : State) : Option State :=
 def beginBlock (s : State) (time : Int) (proposer : Addr) (votes : List Vote) (evs : List Evidence) :
     Option State :=
   let s0 := { s with height := s.height + 1, time := time }
-  let s1 := if s0.height > 1 then rewardFromFees s0 else s0
+  let s1 := if s0.height > 1 then rewardFromFees2 (rewardFromFees s0) else s0
   match (mintAwards s1).bind burnValidators with
   | none => none
   | some s3 =>
@@ -578,6 +602,7 @@ structure Tx where
   memo : Nat
   mutn : String       -- mutation applied after signing ("none" = intact)
   id : String         -- identity of the transaction bytes (what the tx hash is computed from)
+  fee2 : Int := 0     -- the part of the fee offered in the second denomination (it never counts towards the requirement)
   deriving Repr
 
 /-- the fee actually carried by the transaction bytes -/
@@ -608,7 +633,9 @@ def anteOK (s : State) (t : Tx) (simulate : Bool) : Bool :=
      t.feeEff ≥ t.msg.requiredFee s.p &&
      (simulate || t.sigValid s verif) &&
      -- DeductFees
-     balOf s signer ≥ t.feeEff)
+     balOf s signer ≥ t.feeEff) &&
+  -- the part of the fee in the second denomination: a valid amount, covered by the signer's balance
+  t.fee2 ≥ 0 && balOf2 s signer ≥ t.fee2
 
 /-- `runTx`. Returns the new state and whether the result code is OK. -/
 def runTx (s : State) (mode : Mode) (t : Tx) : State × Bool :=
@@ -616,7 +643,8 @@ def runTx (s : State) (mode : Mode) (t : Tx) : State × Bool :=
   else if !t.msg.basicOK then (s, false)
   else if !anteOK s t (mode == .simulate) then (s, false)
   else
-    let afterAnte := (send s (t.msg.signer s) s.feeAcc t.feeEff).getD s
+    let afterAnte1 := (send s (t.msg.signer s) s.feeAcc t.feeEff).getD s
+    let afterAnte := (send2 afterAnte1 (t.msg.signer s) s.feeAcc t.fee2).getD afterAnte1
     match mode with
     | .check => (s, true)
     | .simulate =>
@@ -644,6 +672,7 @@ structure Genesis where
   keys : List (Nat × Addr)
   nStored : Nat
   defaultMaxVals : Int
+  accs2 : List (Addr × Int) := []                 -- balances in the second denomination (on accounts of `accs`)
   signing : List (Addr × Sign) := []              -- `signing_infos` of an exported genesis (override the fresh ones)
   missed : List ((Addr × Int) × Bool) := []       -- `missed_blocks` of an exported genesis
 
@@ -656,7 +685,9 @@ def genesis (g : Genesis) : State × List (Addr × Int) :=
     awards := [], burns := [], proposer := "", rel := [], p := g.p,
     acl := g.paramNames.map (fun n => (n, g.aclOwner)), daoOwner := g.daoOwner,
     pool := g.pool, feeAcc := g.feeAcc, posAcc := g.posAcc, daoAcc := g.daoAcc,
-    keys := g.keys, nStored := g.nStored, height := 0, time := 0, cHeight := 0, cTime := 0, index := [], blockTxs := [] }
+    keys := g.keys, nStored := g.nStored, height := 0, time := 0, cHeight := 0, cTime := 0, index := [], blockTxs := [],
+    bal2 := g.accs2.foldl (fun m e => if e.2 == 0 then m else aset m e.1 e.2) [],
+    supply2 := g.accs2.foldl (fun t e => t + e.2) 0 }
   let s1 := g.accs.foldl (fun st e => { setBal st e.1 e.2 with supply := st.supply + e.2 }) s0
   let s2 := g.vals.foldl (fun st e =>
     let v : Val := { status := 2, jailed := false, tokens := e.2, unstake := 0 }
